@@ -21,7 +21,7 @@ ASSUMPTIONS = ["pomerol's own debug assertions (TermList::check_terms, Hermitici
                "leaks are outside the statement (detect_leaks=0)", "uninitialised reads are visible only if they change an answer under the two fill patterns (no MSan-instrumented libstdc++/Boost/MPI in this image)",
                "OMP_NUM_THREADS=1"]
 CONFIG = {
-    "quick": {"flavours": ["real-san", "complex-san"], "shards": 8, "examples": 220, "min_nontrivial": 100, "budget_s": 100},
+    "quick": {"flavours": ["real-san", "complex-san"], "shards": 8, "examples": 500, "min_nontrivial": 200, "budget_s": 100},
     "thorough": {"flavours": ["real-san", "complex-san"], "shards": 16, "examples": 1500, "min_nontrivial": 3000, "budget_s": 3400},
 }
 REQUIRED_CLASSES = {"quick": ["offdiag-gf", "offdiag-susc", "chi-default", "chi-empty-table", "1x1-block", "sparse-family", "c4-container", "vertex"],
@@ -77,7 +77,8 @@ def strategy_(draw, tier):
         elif k == "fieldop":
             steps.append({"k": "fieldop", "i": draw(ix), "j": draw(ix)})
         elif k == "c4":
-            keys = [list(t) for t in draw(st.lists(st.tuples(ix, ix, ix, ix), min_size=0, max_size=3, unique=True))]
+            # the default "all components" fill grows like N^4/4 two-particle functions: only for N<=3 under the sanitizers
+            keys = [list(t) for t in draw(st.lists(st.tuples(ix, ix, ix, ix), min_size=0 if N <= 3 else 1, max_size=3, unique=True))]
             steps.append({"k": "c4", "keys": keys, "split": draw(st.integers(0, 1)), "clear": draw(st.integers(0, 1)), "freqs": draw(st.booleans()),
                           "eval": [draw(ix), draw(ix), draw(ix), draw(ix)]})
         elif k == "truncate":
